@@ -10,7 +10,9 @@ def pipeline(run):
     run.build_harness()
     scen = os.path.join(run.scratch, "tscen.ndjson")
     if run.replay:
-        scen = os.path.join(run.replay, "scen.ndjson")
+        scen = os.path.join(run.replay, "scen-text.ndjson")
+        if not os.path.exists(scen):
+            return {}, scen, None
     else:
         run.model_check("MC_Settings", MC_CFG, workers=16, timeout=1200)
         out = run.tlc("Export_Settings", "INIT Init\nNEXT Next\nCONSTANTS\n  OutFile = \"%s\"\nCHECK_DEADLOCK FALSE\n" % scen, workers=1, timeout=1200, role="export")
@@ -18,6 +20,8 @@ def pipeline(run):
             raise Infra("export failed:\n" + out[-3000:])
     obs = os.path.join(run.scratch, "tobs.ndjson")
     summ = run.harness(["text", "-scen", scen, "-obs", obs, "-work", os.path.join(run.scratch, "wt")])
+    run.fam = "text"
+    run.scen_files["text"] = scen
     run.validate_obs("Obs_Settings", obs)
     return summ, scen, obs
 
